@@ -103,7 +103,7 @@ structure Cfg where
 def current : Cfg := { unregOnSuccess := true }
 def repaired : Cfg := { unregOnSuccess := false }
 
-def Proc.alive (p : Proc) : Bool := p.dead.isNone
+def Proc.alive (p : Proc) : Bool := match p.dead with | none => true | some _ => false
 
 def release (sh : Shared) (h : Holder) : Shared :=
   if sh.lock = some h then { sh with lock := none } else sh
@@ -180,6 +180,7 @@ def stepProc (cfg : Cfg) (me : Nat) (sh : Shared) (p : Proc) : Shared × Proc :=
   | none, none => mainStep cfg me sh p
 
 def inBody (p : Proc) : Bool := match p.loc with | .body _ => true | _ => false
+def noHandler (p : Proc) : Bool := match p.hnd with | none => true | some _ => false
 
 /-- delivery of a signal -/
 def deliver (me : Nat) (sh : Shared) (p : Proc) (sig : Sig) : Shared × Proc :=
@@ -190,11 +191,11 @@ def deliver (me : Nat) (sh : Shared) (p : Proc) (sig : Sig) : Shared × Proc :=
   | .kill => (release sh (.run me), { p with dead := some (.signal .kill) })
   | .term =>
       if p.termH then (sh, { p with hnd := some (.write, 15), signalled := true,
-                                    sigInBody := p.sigInBody || (inBody p && p.hnd.isNone) })
+                                    sigInBody := p.sigInBody || (inBody p && noHandler p) })
       else (release sh (.run me), { p with dead := some (.signal .term), signalled := true })
   | .int =>
       if p.intH then (sh, { p with hnd := some (.write, 2), signalled := true,
-                                   sigInBody := p.sigInBody || (inBody p && p.hnd.isNone) })
+                                   sigInBody := p.sigInBody || (inBody p && noHandler p) })
       else -- default disposition: KeyboardInterrupt at the current point (also inside a running handler)
         match p.loc with
         | .fin (some _) st => (sh, { p with hnd := none, signalled := true, loc := .fin none st })
@@ -230,13 +231,18 @@ inductive Act
   | lDie (l : Nat)                             -- the scheduler process dies
   deriving Repr
 
-def St.put (s : St) (i : Nat) (r : Shared × Proc) : St :=
-  { s with sh := r.1, procs := upd s.procs i r.2 }
-
 def act (cfg : Cfg) (s : St) : Act → St
   | .spawn o b => { s with procs := upd s.procs s.n (newProc o b), n := s.n + 1 }
-  | .step i => if i < s.n then s.put i (stepProc cfg i s.sh (s.procs i)) else s
-  | .signal i sig => if i < s.n then s.put i (deliver i s.sh (s.procs i) sig) else s
+  | .step i =>
+      if i < s.n then
+        match stepProc cfg i s.sh (s.procs i) with
+        | (sh', p') => { s with sh := sh', procs := upd s.procs i p' }
+      else s
+  | .signal i sig =>
+      if i < s.n then
+        match deliver i s.sh (s.procs i) sig with
+        | (sh', p') => { s with sh := sh', procs := upd s.procs i p' }
+      else s
   | .lLock l =>
       if s.ls l = .idle ∧ s.sh.lock = none then
         { s with sh := { s.sh with lock := some (.launch l) }, ls := upd s.ls l .locked } else s
@@ -265,7 +271,7 @@ def runAlone (cfg : Cfg) (i : Nat) : Nat → St → St
 
 /-- process `i` is running the task body right now -/
 def running (s : St) (i : Nat) : Bool :=
-  decide (i < s.n) && (s.procs i).alive && inBody (s.procs i) && (s.procs i).hnd.isNone
+  decide (i < s.n) && (s.procs i).alive && inBody (s.procs i) && noHandler (s.procs i)
 
 def bodiesRunning (s : St) : Nat := ((List.range s.n).filter (running s)).length
 
